@@ -167,9 +167,10 @@ Abs(n) == IF n < 0 THEN -n ELSE n
 FloatEq(m, n) == IF m = n THEN "T" ELSE IF Abs(m - n) >= 2 THEN "F" ELSE "either"
 And3(x, y) == IF x = "F" \/ y = "F" THEN "F" ELSE IF x = "either" \/ y = "either" THEN "either" ELSE "T"
 
-BoolNumTwin(a, b) == {a.k, b.k} = {"bool", "num"} /\ a.mu = b.mu      \* BoolIsNumber
+\* (as VALUES True == 1 in Python -- BoolIsNumber, a named deviation of Eq above; as grid CELLS a Bool and a Number are
+\* cells of different kinds)
 CellEq(a, b) ==
-    IF a.k # b.k THEN (IF BoolNumTwin(a, b) THEN "either" ELSE "F")
+    IF a.k # b.k THEN "F"
     ELSE IF a.s # b.s THEN "F"
     ELSE And3(FloatEq(a.mu, b.mu), FloatEq(a.mu2, b.mu2))
 
